@@ -42,7 +42,8 @@ SPEC = dict(
          "structural checks and bit-exact replay only) and protein (K=21) matrices of width 1..3 (20^M / 21^M words) "
          "in 16 rotating kinds: random f32 cells, cells quantised to "
          "1/8..1 (ties, exact half steps), count matrices -> frequencies -> log-odds through the library, finite "
-         "wildcard column, constant matrices, narrow range on a large offset, range around/above 1000 (fractional scale "
+         "wildcard column, constant matrices, `roundup` (width 6..8, integer offset/scale, every row maximum placed just "
+         "above a half step so that all row maxima round up), narrow range on a large offset, range around/above 1000 (fractional scale "
          "..2), huge cells (offset beyond i32), wildcard-mass backgrounds, NaN/+inf/-inf cells (replay only); "
          "backgrounds: uniform, dyadic non-uniform (exact sum 1, sometimes a zero symbol), from_counts and decimal "
          "(f32 sum 1, real sum 1 +- 1e-7), wildcard mass. Per matrix ~75 scores probed with pvalue (attainable "
